@@ -290,6 +290,13 @@ def main(argv=None):
             problems.append('translator validation failed in %s %r: %r' % (hn, r['case'], w))
         if r['paths'] == 0:
             problems.append('no feasible path in %s %r (vacuous harness)' % (hn, r['case']))
+        elif (r.get('twin') is None and r.get('exhausted') and not r['violations']
+              and not r['witness_bad'] and r.get('witness_ok', 0) == 0 and r.get('held', 0) > 0):
+            # every obligation 'held' but no path of the case has a satisfiable path
+            # condition to replay: the assumptions/axioms contradict each other and the
+            # obligations hold vacuously (seen with beta = 0 in C01's closed forms: log of 0)
+            lines.append('no path of %s %r has a replayed witness (path condition unknown to '
+                         'the solver, or unsatisfiable = vacuous case)' % (hn, r['case']))
         for inc in r['inconclusive']:
             ph['inconclusive'] += 1
             msg = 'inconclusive %s:%s %r: %s' % (hn, inc['label'], r['case'], inc.get('why'))
